@@ -42,7 +42,7 @@ CHECKS = {
     },
     "C03": {
         "module": "Vanguard.Props.C03", "namespace": "Vanguard.C03", "streams": ["e2e", "schema"],
-        "partial": "exactly-one-outcome is proved for whole runs of the model; that the rendered bytes (content type, envelope framing, compression flags vs. bytes, Content-Length) satisfy the protocol validator for every scenario is checked by validator and correspondence, not a theorem",
+        "partial": "exactly-one-outcome is proved for whole runs of the model; well-formed envelope framing of what a streaming client receives is proved for well-formed backend streams (re-framing path: any split across Write calls; re-encoding path: one Write); that the rendered bytes (content type, compression flags vs. bytes, Content-Length, framing after malformed backend output) satisfy the protocol validator for every scenario is checked by validator and correspondence, not a theorem",
         "assumptions": E2E_ASSUME,
     },
     "C08": {
